@@ -114,6 +114,8 @@ pub struct ItemSpec {
     pub rename: Option<String>,
     pub pub_fields: bool,
     pub drop_derives: BTreeSet<String>,
+    /// single-segment type renames local to this item: tsubst=A:B,C:D
+    pub subst: Vec<(Vec<String>, String)>,
 }
 #[derive(Clone, Debug)]
 pub struct Ghost {
@@ -300,7 +302,8 @@ pub fn parse_spec(text: &str, prelude_dir: &str) -> Result<Unit, String> {
                 let file = ws.get(1).cloned().ok_or_else(|| err("missing file"))?;
                 let name = ws.get(2).cloned().ok_or_else(|| err("missing name"))?;
                 let dd = kv(&ws, "dropderive").unwrap_or("").split(',').filter(|s| !s.is_empty()).map(|s| s.to_string()).collect();
-                unit.parts.push(Part::Item(ItemSpec { file, name, rename: kv(&ws, "as").map(|s| s.to_string()), pub_fields: flag(&ws, "pubfields"), drop_derives: dd }));
+                let ts: Vec<(Vec<String>, String)> = kv(&ws, "tsubst").unwrap_or("").split(',').filter(|s| !s.is_empty()).filter_map(|p| p.split_once(':')).map(|(a, b)| (a.split("::").map(|x| x.to_string()).collect(), b.to_string())).collect();
+                unit.parts.push(Part::Item(ItemSpec { file, name, rename: kv(&ws, "as").map(|s| s.to_string()), pub_fields: flag(&ws, "pubfields"), drop_derives: dd, subst: ts }));
             }
             "fn" => {
                 if cur.is_some() {
@@ -387,6 +390,11 @@ pub fn parse_spec(text: &str, prelude_dir: &str) -> Result<Unit, String> {
                         f.replaces.push(Replace { old, new: if new == "<empty>" { String::new() } else { new }, rule, why, all: flag(&ws, "all"), pre: flag(&ws, "pre") });
                     }
                     "split-arms" => f.split_arms = true,
+                    "refvar" => {
+                        for w in &ws[1..] {
+                            f.ref_params.insert(w.clone());
+                        }
+                    }
                     "attr" => f.attrs.push(d.trim_start()["attr".len()..].trim().to_string()),
                     "ctxe" => f.error_context_receivers.push(ws.get(1).cloned().ok_or_else(|| err("receiver"))?),
                     "lsubst" => {
